@@ -680,6 +680,9 @@ func (v Value) Equals(b Value) bool {
 func (v Value) opEq(b Value) Value { return Bool(v.Equals(b)) }
 
 func (v Value) convert(t Type) (res Value) {
+	if v.t == TypeNil && t >= nillableMin { // []T(nil), map[K]V(nil), (*T)(nil): the nil of that type
+		return v.assign(t)
+	}
 	switch t {
 	case TypeUint8:
 		return Uint8(uint8(int64(v.num)))
